@@ -28,6 +28,17 @@ func (ex *Exec) execCall(fr *Frame, st *State, c *ssa.CallCommon, pos token.Pos,
 			args = append(args, ex.val(fr, a))
 		}
 		name := fmt.Sprintf("(%s).%s", types.TypeString(c.Value.Type(), qual), c.Method.Name())
+		// the interface value was made from a known concrete value: dispatch statically
+		if iv, ok := recv.(IfV); ok && iv.Conc != nil {
+			ms := ex.P.prog.MethodSets.MethodSet(iv.Conc.Type())
+			for i := 0; i < ms.Len(); i++ {
+				if ms.At(i).Obj().Name() == c.Method.Name() {
+					if fn := ex.P.prog.MethodValue(ms.At(i)); fn != nil {
+						return ex.callFunction(fr, st, fn, nil, append([]Value{iv.Conc}, args...), pos, rt)
+					}
+				}
+			}
+		}
 		// `impl <interface> <concrete>`: the contract fixes the dynamic type (it must follow from
 		// the precondition: that is an obligation) and the call is dispatched statically.
 		if ex.contract != nil {
@@ -103,7 +114,19 @@ func (ex *Exec) execCall(fr *Frame, st *State, c *ssa.CallCommon, pos token.Pos,
 
 func (ex *Exec) callFunction(fr *Frame, st *State, fn *ssa.Function, bind []Value, args []Value, pos token.Pos, rt types.Type) Value {
 	name := fn.String()
-	// receiver of a method must not be nil when it is dereferenced; checked at call site for pointer receivers
+	// assumed contract of a library function, specialised to the dynamic type of its first
+	// (interface) argument: e.g. container/heap.Pop[*fragHeap]
+	if !strings.HasPrefix(pkgPathOf(fn), ex.P.modulePath) && len(args) > 0 && !fr.isSpec {
+		if iv, ok := args[0].(IfV); ok && iv.Conc != nil {
+			rel := func(p *types.Package) string { return "" }
+			key := pkgPathOf(fn) + ":" + fn.Name() + "[" + types.TypeString(iv.Conc.Type(), rel) + "]"
+			if ct := ex.P.contracts[key]; ct != nil {
+				ct.bound = true
+				ex.note("library function %s is used through its ASSUMED contract %s", fn, ct.FnName)
+				return ex.applyContract(fr, st, ct, fn, fn.Signature, args, pos, rt)
+			}
+		}
+	}
 	if v, ok := ex.external(fr, st, fn, args, pos, rt); ok {
 		return v
 	}
@@ -132,7 +155,16 @@ func (ex *Exec) callFunction(fr *Frame, st *State, fn *ssa.Function, bind []Valu
 	if len(fn.Blocks) > 0 && fr.depth < maxInlineDepth && !onStack(fr, fn) && ex.P.inlinable(fn, ct) {
 		nf := newFrame(fn, fr)
 		nf.freevars = bind
+		// library code executed in place: its own panic-freedom is not ours to prove (and the
+		// callbacks it makes into this module are verified separately under their preconditions)
+		foreign := pkgPathOf(fn) == "container/heap" || pkgPathOf(fn) == "container/list" || pkgPathOf(fn) == "sort"
+		if foreign {
+			ex.noObl++
+		}
 		v, out := ex.runFunction(nf, st, args)
+		if foreign {
+			ex.noObl--
+		}
 		if out == nil {
 			st.G = False
 			return zeroOrFresh(rt)
@@ -224,6 +256,7 @@ func (ex *Exec) havocCall(fr *Frame, st *State, name string, args []Value, rt ty
 }
 
 func (ex *Exec) havocEverything(st *State) {
+	st.logWrite(&WriteRec{Kind: "everything"})
 	st.Heap = map[string]*Term{}
 	st.Epoch = Fresh("epoch", BVSort(32))
 	st.advanceAlloc("alloc")
@@ -456,6 +489,7 @@ func elemFamilies(et types.Type) (names []string, sorts []*Sort) {
 // copyRange writes n elements from (srcRow, soff) into dst array dr at doff, for every leaf.
 // It introduces fresh rows constrained by lazy foralls.
 func (ex *Exec) copyRange(st *State, et types.Type, dr, doff *Term, srcRows []*Term, soff, n *Term, desc string) {
+	st.logWrite(&WriteRec{Kind: "range", Key: typeKey(et), Ref: dr, Idx: doff, N: n, Desc: desc})
 	names, sorts := elemFamilies(et)
 	z := BVi(0, 64)
 	for i, name := range names {
@@ -513,6 +547,7 @@ func (ex *Exec) copyBuiltin(st *State, args []Value, rt types.Type) Value {
 		// bytes of the string: element k is strbyte(s,k)
 		name := "E|uint8|"
 		srt := ArraySort(RefSort, ArraySort(IntSort, BVSort(8)))
+		st.logWrite(&WriteRec{Kind: "range", Key: "uint8", Ref: dst.Arr, Idx: dst.Off, N: n, Desc: "copy from string"})
 		h := st.heap(name, srt)
 		oldRow := Select(h, dst.Arr)
 		if dst.Len.IsConst() && dst.Len.Val.Int64() <= 20 {
@@ -647,6 +682,9 @@ func (ex *Exec) applyContract(fr *Frame, st *State, ct *Contract, fn *ssa.Functi
 		if fn.Pkg != nil {
 			pkg = fn.Pkg.Pkg
 		}
+		if ct.External {
+			pkg = ex.P.pkgByPath(ct.Pkg)
+		}
 	} else {
 		// interface method: receiver passed as args[0]
 		cf = &Frame{regs: map[ssa.Value]Value{}, named: map[string]*Cell{}, params: map[string]Value{}}
@@ -710,11 +748,16 @@ func (ex *Exec) havocSpecLoc(env *SpecEnv, st *State, e ast.Expr) {
 			case "everything":
 				ex.havocEverything(st)
 				return
-			case "elems":
+			case "elems", "elemscap":
 				sl, ok := env.eval(call.Args[0]).(SlV)
 				if !ok {
 					specErr("elems() of non-slice")
 				}
+				if id.Name == "elemscap" {
+					// the whole capacity (an append may write beyond the length)
+					sl.Len = sl.Cap
+				}
+				st.logWrite(&WriteRec{Kind: "range", Key: typeKey(sl.Ty.Underlying().(*types.Slice).Elem()), Ref: sl.Arr, Idx: sl.Off, N: sl.Len, Desc: "callee modifies elems"})
 				et := sl.Ty.Underlying().(*types.Slice).Elem()
 				names, sorts := elemFamilies(et)
 				for i, name := range names {
@@ -732,7 +775,22 @@ func (ex *Exec) havocSpecLoc(env *SpecEnv, st *State, e ast.Expr) {
 			case "entries":
 				m := env.eval(call.Args[0]).(Sc)
 				mt := m.Ty.Underlying().(*types.Map)
+				st.logWrite(&WriteRec{Kind: "map", Key: mapFam(mt), Ref: m.T, Desc: "callee modifies entries"})
 				ex.havocMap(st, mt, m.T)
+				return
+			case "ghost", "ghostarr":
+				id, ok := call.Args[0].(*ast.Ident)
+				if !ok {
+					specErr("%s(name)", id.Name)
+				}
+				st.logWrite(&WriteRec{Kind: "global", Key: call.Fun.(*ast.Ident).Name + "." + id.Name})
+				if call.Fun.(*ast.Ident).Name == "ghost" {
+					n := "G|ghost." + id.Name + "|"
+					st.setHeap(n, Fresh("ghost."+id.Name, IntSort))
+				} else {
+					n := "G|ghostarr." + id.Name + "|"
+					st.setHeap(n, Fresh("ghostarr."+id.Name, ArraySort(IntSort, IntSort)))
+				}
 				return
 			case "mapfamily":
 				// mapfamily(T): every map of the named map type may change
@@ -745,6 +803,7 @@ func (ex *Exec) havocSpecLoc(env *SpecEnv, st *State, e ast.Expr) {
 					specErr("mapfamily: %s is not a map type", t)
 				}
 				fam := mapFam(mt)
+				st.logWrite(&WriteRec{Kind: "mapfamily", Key: fam})
 				for n, srt := range heapSorts {
 					if strings.HasPrefix(n, fam+"|") {
 						st.setHeap(n, Fresh("mapfam", srt))
